@@ -53,11 +53,11 @@ def run_cases(ck, res, n_cases, n_interval):
             inp = {'kind': kind, 'params': pv, 'net': net_p.describe(), 'f': f_p.describe(), 'g': g_p.describe(), 'r': rs, 'theta': ths, 'phi': phs}
             scale = 1 + max(abs(v) for v in u)
             fv = f_p.jet((0, 0), [ths[0], phs[0]])
-            if not enga.close(u[0], fv, scale):
+            if not enga.close(u[0], fv, scale, rel=enga.EXACT):
                 ck.fail(f'{kind}/inner', f'{kind}: value at r = r_0 is {u[0]!r}, prescribed f = {fv!r}', inp, expected=fv, actual=u[0])
             if kind == 'shell2':
                 gv = g_p.jet((0, 0), [ths[1], phs[1]])
-                if not enga.close(u[1], gv, scale):
+                if not enga.close(u[1], gv, scale, rel=enga.EXACT):
                     ck.fail(f'{kind}/outer', f'{kind}: value at r = r_1 is {u[1]!r}, prescribed g = {gv!r}', inp, expected=gv, actual=u[1])
             if kind == 'inf':
                 # convergence to g for a bounded network: error bound A e^{-k d} + B e^{-2 d}
@@ -127,9 +127,9 @@ def run_cases(ck, res, n_cases, n_interval):
             for j in range(W):
                 u = [float(out[i, j]) for i in range(len(rs))]
                 scale = 1 + max(abs(v) for v in u)
-                if not enga.close(u[0], R0v[j], scale):
+                if not enga.close(u[0], R0v[j], scale, rel=enga.EXACT):
                     ck.fail(f'{kind}/inner', f'{kind}: column {j} at r = r_0 is {u[0]!r}, prescribed {R0v[j]!r}', inp, expected=R0v[j], actual=u[0])
-                if kind == 'basis2' and not enga.close(u[1], R1v[j], scale):
+                if kind == 'basis2' and not enga.close(u[1], R1v[j], scale, rel=enga.EXACT):
                     ck.fail(f'{kind}/outer', f'{kind}: column {j} at r = r_1 is {u[1]!r}, prescribed {R1v[j]!r}', inp, expected=R1v[j], actual=u[1])
                 if kind == 'inf_basis':
                     bound = sum(abs(c) for c, _ in cols[j].terms) + abs(R0v[j]) + 2 * abs(R1v[j]) + 1
